@@ -89,6 +89,7 @@ pub fn run(args: &Args) {
     let deadline = super::c03::deadline::spawn_deadline_sessions();
     let mut rng = Rng::new(args.seed);
     let all = scripts(args.tier_thorough, &mut rng);
+    for sc in &all { let back = Script::parse(&sc.text()); assert!(back == *sc, "script text does not parse back: {}", sc.text()); }
     // sessions wait for real retransmission timers (1 s each): run them concurrently in batches
     for batch in all.chunks(48) {
         let mut pending: Vec<&Script> = batch.iter().collect();
